@@ -367,4 +367,4 @@ def run(spec, ctx):
         try:
             run_case(ctx, idx)
         except Exception as exc:
-            ctx.error(f"case {idx}", exc)
+            ctx.raised("c20.no_exception", f"case {idx}", exc)
